@@ -914,7 +914,7 @@ func parseComplexStrictNil[T any, R any](
 
 	// Prefault values: full parsing and validation.
 	if internals.PrefaultValue != nil {
-		r, err := ParseComplex[T](internals.PrefaultValue, internals, expectedType, typeExtractor, ptrExtractor, validator, pc)
+		r, err := ParseComplex[T](cloneDefaultValue(internals.PrefaultValue), internals, expectedType, typeExtractor, ptrExtractor, validator, pc)
 		if err != nil {
 			return zero, err
 		}
